@@ -80,6 +80,10 @@ func (h *Handler) handleDiscover(p packet.DHCP4, options packet.DHCP4Options) (d
 		}
 	}
 
+	if lease.IPOffer.IsValid() && !h.available(lease, lease.IPOffer) { // the previous offer was meanwhile acknowledged to another client or is in use
+		lease.IPOffer = netip.Addr{}
+	}
+
 	if !lease.IPOffer.IsValid() {
 		if err := h.allocIPOffer(lease, reqIP); err != nil {
 			Logger.Msg("discover all ips allocated, failing silently").Error(err).Write()
